@@ -738,10 +738,11 @@ def check_straight(prog, report, which=('bilform', 'residual')):
             # evaluate_exact(elem_trial, t, x_hat): same piece as the point
             args = [text(a) for a in call.args]
             elem = args[0] if args else '?'
-            same = any(
-                state.entails_bool(k) for k in
-                ('%s.gamma_space is gamma' % elem,
-                 'gamma is %s.gamma_space' % elem))
+            keys = []
+            for tmpl in ('%s.gamma_space is gamma', 'gamma is %s.gamma_space'):
+                keys.append(text(state.sub(ast.parse(tmpl % elem,
+                                                     mode='eval').body)))
+            same = any(state.entails_bool(k) for k in keys)
             direct = all(
                 any(f[0] == 'bool' and f[2] and f[1].startswith(
                     'isinstance(') and 'PiecewisePolygon' in f[1] and
